@@ -85,6 +85,12 @@ def scenario_install_crash_images(binary, rng, shim_so, parse_journal, apply_mut
             probe = "p%d" % (pi + 1)
             n1.publish("probe", GROUP, probe)
             ok, secs = wait_serves(n2, "probe", probe, 45.0)
+            if not ok and n2.alive():
+                # a slow machine is not a failure: once more, with a fresh probe and a longer wait
+                probe = probe + "b"
+                n1.publish("probe", GROUP, probe)
+                ok, secs = wait_serves(n2, "probe", probe, 90.0)
+                rec["slow"] = True
             rec["follows"] = bool(ok)
             time.sleep(0.5)
             ref = read_all(n1, keys)
